@@ -16,7 +16,7 @@ import (
 func init() {
 	register(&propDef{
 		id:      "C12",
-		explain: "Structural necessary conditions of 'the concurrency, open-connection and per-IP counters are exact and the limits are enforced', decided per function on every path by exploration with counters in the abstract state (deferred calls applied at function exit): tryAcquireConcurrency nets +1 exactly when it returns true; ServeConn nets 0 on concurrency and open at every return; serveConnCounted nets 0 on concurrency and -1 on open (it gives back the unit its caller took) at every return; Serve gives back the open unit on the rejection branch of workerPool.Serve and keeps its own listener unit balanced; wrapPerIPConn registers exactly one unit when it returns a per-IP wrapper and none otherwise; perIPConn.Close / perIPTLSConn.Close unregister exactly once on every path on which they took the connection out of the wrapper, and never otherwise. Admission: the success return of tryAcquireConcurrency and the wrapper return of wrapPerIPConn are control-dependent on the comparison with the limit; the rejection paths write 503 / 429 and close the connection; Serve raises and lowers the count of listening Serve calls together with the open unit it holds, and GetOpenConnectionsCount corrects the open count by that counter, not by a constant. (R-wrap) a per-IP accounting wrapper taken from its pool has every field (the counted address above all) assigned on every path of the acquiring function that hands it out, so Close gives the count back for the address that was counted. Not decided: peak concurrent service under schedules, IPv6 (not counted by design).",
+		explain: "Structural necessary conditions of 'the concurrency, open-connection and per-IP counters are exact and the limits are enforced', decided per function on every path by exploration with counters in the abstract state (deferred calls applied at function exit): tryAcquireConcurrency nets +1 exactly when it returns true; ServeConn nets 0 on concurrency and open at every return; serveConnCounted nets 0 on concurrency and -1 on open (it gives back the unit its caller took) at every return; Serve gives back the open unit on the rejection branch of workerPool.Serve and keeps its own listener unit balanced; wrapPerIPConn registers exactly one unit when it returns a per-IP wrapper and none otherwise; perIPConn.Close / perIPTLSConn.Close unregister exactly once - on the call that finds the wrapper not closed yet (a 'closed' flag, or the connection taken out of the wrapper) - and never otherwise. Admission: the success return of tryAcquireConcurrency and the wrapper return of wrapPerIPConn are control-dependent on the comparison with the limit; the rejection paths write 503 / 429 and close the connection; Serve raises and lowers the count of listening Serve calls together with the open unit it holds, and GetOpenConnectionsCount corrects the open count by that counter, not by a constant. (R-wrap) a per-IP accounting wrapper taken from its pool has every field (the counted address above all) assigned on every path of the acquiring function that hands it out, so Close gives the count back for the address that was counted. Not decided: peak concurrent service under schedules, IPv6 (not counted by design).",
 		run:     runC12,
 	})
 }
@@ -262,6 +262,34 @@ func runC12x(p *Prog, r *Report, openOnly bool) {
 					}
 				}
 			}
+		}
+		// or: a 'closed' flag remembers whether Close ran before (the embedded connection stays in place)
+		var flag ssa.Value
+		for _, b := range fn.Blocks {
+			for _, in := range b.Instrs {
+				if u, ok := in.(*ssa.UnOp); ok && isBool(u.Type()) {
+					if _, fv := loadedField(u); fv != nil && fv.Name() == "closed" && flag == nil {
+						flag = u
+					}
+				}
+			}
+		}
+		if flag != nil {
+			fl := flag
+			run(&pairSpec{what: typ + ".Close unregisters the per-IP unit exactly once: on the call that finds the wrapper not closed yet, on every path", fn: fn,
+				track: []ssa.Value{fl},
+				expect: func(x *Explorer, st *State, ret *ssa.Return) (pairDelta, [4]bool, bool) {
+					want := pairDelta{}
+					switch x.Eval(st, fl) {
+					case False:
+						want[tIP] = -1
+					case True:
+					default:
+						want[tIP] = -99
+					}
+					return want, [4]bool{false, false, true, false}, true
+				}})
+			continue
 		}
 		if taken == nil {
 			r.Undecided("E1", typ+".Close", "no load of the embedded Conn field")
